@@ -137,11 +137,19 @@ def project(raw_events, scenario, bound=None):
             m = re.search(r":k(\d+)$", ev.get("arn", "") or "")
             if m and ev.get("reqid"):
                 reqk.setdefault(ev["reqid"], int(m.group(1)))
-    # fall back for ids never rendered: InvokeStart while exactly one invocation is in flight
+    # front-end mode: the server reserves under an id of its own and writes it into the Invoke it was given; the
+    # recording sandbox reports that id when the call returns
+    for ev in raw_events:
+        if ev.get("ev") == "InvokeRet" and ev.get("reqid2"):
+            reqk.setdefault(ev["reqid2"], ev["k"])
+    # fall back for ids never rendered: InvokeStart while exactly one invocation is in flight (callers that are refused
+    # without ever being dispatched do not count)
+    refused = set(ev["k"] for ev in raw_events if ev.get("ev") == "InvokeRet" and ev.get("err") == "AlreadyReserved")
     inflight = []
     for ev in raw_events:
         if ev.get("ev") == "InvokeCall":
-            inflight.append(ev["k"])
+            if ev["k"] not in refused:
+                inflight.append(ev["k"])
         elif ev.get("ev") == "InvokeRet":
             if ev["k"] in inflight:
                 inflight.remove(ev["k"])
